@@ -23,7 +23,11 @@ def run(rep, tier, seed, replay):
     if bad and not found:
         found = True
         i = min(bad, key=lambda j: len(cases[j]))
-        rep.violation({"kind": "input", "oracle": "%s requests and the sentinel must produce exactly %d replies; observed: %s" % (cases[i].split()[0], int(cases[i].split()[0]) + 1, impl[i]),
+        special = {"cross": "a connection that keeps asking for its own key while another one is reset with forty requests in flight must read only its own replies",
+                   "flush": "five requests over a backend connection whose writer is held up for 120 ms after each flush (every reply reaches the reader before its request is handed over) must each get exactly their own reply",
+                   "late": "a node answering after 3.3 s: the one reply is the node's"}
+        kind = cases[i].split(" # ")[0].split()[2] if len(cases[i].split(" # ")[0].split()) > 2 else ""
+        rep.violation({"kind": "input", "oracle": (special[kind] + "; observed: " + impl[i]) if kind in special else "%s requests and the sentinel must produce exactly %d replies; observed: %s" % (cases[i].split()[0], int(cases[i].split()[0]) + 1, impl[i]),
                        "case": {"line": cases[i], "format": "n token # requests (canonical tokens), then GET of a key holding the token"}, "impl": impl[i], "failing_cases": len(bad)})
     if not pr["ok"] and not found:
         rep.violation({"kind": "broken-tie", "theorem": pr.get("broken"), "detail": pr.get("tail"), "searched": "every pipeline received exactly its replies in order"}, found_input=False)
